@@ -25,7 +25,7 @@ NSDECL = ('xmlns:table="%s" xmlns:office="%s" xmlns:text="urn:oasis:names:tc:ope
           'xmlns:number="urn:oasis:names:tc:opendocument:xmlns:datastyle:1.0" xmlns:of="urn:oasis:names:tc:opendocument:xmlns:of:1.2" '
           'xmlns:loext="urn:org:documentfoundation:names:experimental:office:xmlns:loext:1.0" '
           'xmlns:form="urn:oasis:names:tc:opendocument:xmlns:form:1.0" xmlns:script="urn:oasis:names:tc:opendocument:xmlns:script:1.0"') % (TNS, ONS)
-CALL_TIMEOUT = 10
+CALL_TIMEOUT = 5
 
 
 class CallTimeout(Exception):
@@ -187,6 +187,8 @@ def c_read(q, ans):
     if k == 'values': return '(QValues, AMatrix [%s])' % ';'.join(c_zlist(r) for r in ans)
     if k == 'column_values': return '(QColumnValues (%d), AList %s)' % (q[1], c_zlist(ans))
     if k == 'row_width': return '(QRowWidth (%d), ASize (%d) 0)' % (q[1], ans)
+    if k == 'get_cell': return '(QGetCell (%d) (%d), ACell (%d,%d))' % (q[1], q[2], ans[0], ans[1])
+    if k == 'area': return '(QArea (%d) (%d) (%d) (%d), AMatrix [%s])' % (q[1], q[2], q[3], q[4], ';'.join(c_zlist(r) for r in ans))
     raise ValueError(k)
 
 
@@ -317,6 +319,12 @@ class Driver:
             elif k == 'set_row_cells':        # Table.set_row_cells(y, cells)
                 objs = [mk_cell(o, c) for c in op[2]]
                 a = ('set_row', op[1], 1, (0, [self.a_cell(c) for c in objs])); timed(t.set_row_cells, op[1], objs)
+            elif k == 'set_column_cells':     # Table.set_column_cells(x, cells), x >= 0, one cell per logical row
+                objs = [mk_cell(o, c) for c in op[2]]
+                a = ('set_lines', True, op[1], 0, [[self.a_cell(c)] for c in objs]); timed(t.set_column_cells, op[1], objs)
+            elif k == 'set_column_values':    # Table.set_column_values(x, values, style=)
+                a = ('set_lines', True, op[1], 0, [[self.a_cell(mk_cell(o, [1, v, op[3]]))] for v in op[2]])
+                timed(t.set_column_values, op[1], op[2], style=op[3])
             elif k == 'extend_rows':
                 objs = [mk_row(o, r) for r in op[1]]
                 a = (k, [self.a_row(r) for r in objs]); timed(t.extend_rows, objs)
@@ -364,6 +372,11 @@ class Driver:
         if k == 'values': return [[self.cls(v) for v in r] for r in timed(t.get_values)]
         if k == 'column_values': return [self.cls(v) for v in timed(t.get_column_values, q[1])]
         if k == 'row_width': return timed(lambda: t.get_row(q[1]).width)
+        if k == 'get_cell':
+            c = timed(t.get_cell, (q[1], q[2]))
+            rep, v, s = self.a_cell(c)
+            return (v, s)
+        if k == 'area': return [[self.cls(v) for v in r] for r in timed(t.get_values, (q[1], q[2], q[3], q[4]))]
         raise KeyError(k)
 
 
@@ -550,7 +563,8 @@ def pick_pos(rng, reps, allow_neg=True):
 
 OPS_CORE = ['append_row', 'set_row', 'insert_row', 'delete_row', 'set_cell', 'set_cell', 'set_value', 'insert_cell',
             'append_cell', 'delete_cell', 'insert_column', 'delete_column', 'append_column', 'set_column',
-            'set_values', 'set_cells', 'set_row_values', 'set_row_cells', 'extend_rows', 'clear']
+            'set_values', 'set_cells', 'set_row_values', 'set_row_cells', 'extend_rows', 'clear',
+            'set_column_cells', 'set_column_values']
 
 
 def g_op(rng, nodes, kinds, maxw, maxh):
@@ -590,6 +604,8 @@ def g_op(rng, nodes, kinds, maxw, maxh):
     if k == 'set_row_values': return [k, y, [rng.choice(VALUES) for _ in range(rng.randint(0, 4))], rng.choice([None, None, 's1'])]
     if k == 'set_row_cells': return [k, y, [g_cellspec(rng) for _ in range(rng.randint(0, 3))]]
     if k == 'extend_rows': return [k, [g_rowspec(rng) for _ in range(rng.randint(0, 2))]]
+    if k == 'set_column_cells': return [k, max(0, x), [g_cellspec(rng) for _ in range(H)]]
+    if k == 'set_column_values': return [k, max(0, x), [rng.choice(VALUES) for _ in range(H)], rng.choice([None, None, 's1'])]
     if k == 'clear': return [k]
     raise KeyError(k)
 
@@ -601,11 +617,15 @@ def g_reads(rng, nodes, full=True):
         qs.append(['values'])
     for _ in range(2):
         qs.append(['get_value', pick_pos(rng, [r for r, _ in cols]), pick_pos(rng, [r for r, _ in rows])])
+    qs.append(['get_cell', pick_pos(rng, [r for r, _ in cols]), pick_pos(rng, [r for r, _ in rows])])
     qs.append(['row_values', pick_pos(rng, [r for r, _ in rows])])
     if rng.random() < 0.5:
         qs.append(['column_values', pick_pos(rng, [r for r, _ in cols])])
     if rng.random() < 0.5:
         qs.append(['row_width', pick_pos(rng, [r for r, _ in rows])])
+    if rng.random() < 0.7:      # get_values(coord) over an area: corners around run boundaries, possibly crossed or beyond
+        qs.append(['area', pick_pos(rng, [r for r, _ in cols]), pick_pos(rng, [r for r, _ in rows]),
+                   pick_pos(rng, [r for r, _ in cols]), pick_pos(rng, [r for r, _ in rows])])
     return qs
 
 
